@@ -1,6 +1,6 @@
 (* C05 - the CBOR parser reads every item of the supported subset with its RFC 7049 value.
    Statements only; proofs are in Cbor/ConformanceProofs.v. *)
-From SF Require Import Base.Prelude Core.Events Cbor.Spec Cbor.Parse Cbor.ConformanceProofs.
+From SF Require Import Base.Prelude Core.Events Cbor.Spec Cbor.Parse Cbor.ConformanceProofs Cbor.ComposeProofs.
 
 (* Whenever the reference decoder (Cbor/Spec.v, written from RFC 7049 sections 2.1-2.3 for
    the supported subset: every argument width minimal or not, negative integers down to
@@ -27,6 +27,12 @@ Theorem C05_malformed : forall b, all_bytes b = true -> (zlen b <=? MaxInt64) = 
   cbor_decode b = RMalformed -> exists evs e, run_parse None b = Ok (evs, e) /\ e <> nilE.
 Proof. exact ConformanceProofs.C05_malformed. Qed.
 Print Assumptions C05_malformed.
+
+(* Exactly the reference-valid inputs are accepted. *)
+Theorem C05_accept_iff : forall b, all_bytes b = true -> (zlen b <=? MaxInt64) = true ->
+  ((exists evs, run_parse None b = Ok (evs, nilE)) <-> (exists vs, cbor_decode_all (S (length b)) b = Some vs)).
+Proof. exact C05_cbor_accept_iff. Qed.
+Print Assumptions C05_accept_iff.
 
 Example C05_nonvacuous :   (* -200 in a two-byte argument, inside an indefinite array *)
   cbor_decode [159; 56; 199; 255] = RValue (CArr [CNum (CInt (-200))]) [].
